@@ -363,7 +363,7 @@ pub fn run(ctx: &mut Ctx) {
     }
     // 2. random pairs (random values, and a random value against a pool member)
     let pool2 = pool.clone();
-    let pairs = ctx.pick(40_000, 2_000_000);
+    let pairs = ctx.pick(600_000, 20_000_000);
     ctx.prop(
         "random-pairs",
         pairs,
@@ -380,7 +380,7 @@ pub fn run(ctx: &mut Ctx) {
     );
     // 3. triples
     let pool3 = pool.clone();
-    let triples = ctx.pick(300_000, 20_000_000);
+    let triples = ctx.pick(4_000_000, 200_000_000);
     ctx.prop(
         "triples",
         triples,
@@ -396,7 +396,7 @@ pub fn run(ctx: &mut Ctx) {
     );
     // 4. sorting / keyed collections
     let pool4 = pool.clone();
-    let sorts = ctx.pick(20_000, 1_000_000);
+    let sorts = ctx.pick(300_000, 10_000_000);
     ctx.prop(
         "sort",
         sorts,
